@@ -84,6 +84,13 @@ type c12Case struct {
 	// Churn is the number of bare acquire/release cycles each goroutine adds at the end.
 	Batches [][]int `json:"batches,omitempty"`
 	Churn   int     `json:"churn,omitempty"`
+
+	// jsonvalues: the JSON stream reader driven by hand over SEVERAL top-level values (an input the reader may reject
+	// after the first value - whatever it does, every tree it hands out must be sound) with a root-selecting or
+	// child-selecting xpath
+	Values []string `json:"values,omitempty"`
+	Sep    string   `json:"sep,omitempty"`
+	XPath  string   `json:"xpath,omitempty"`
 }
 
 func c12DrawOps(t *rapid.T) []c12Op {
@@ -142,6 +149,11 @@ func genC12Churn(t *rapid.T) c12Case {
 	at := rapid.IntRange(0, len(ops)).Draw(t, "longChurnAt")
 	k := rapid.SampledFrom([]int{66000, 70000, 140000, 270000}).Draw(t, "longChurnK")
 	ops = append(ops[:at:at], append([]c12Op{{Op: "churn", K: k}}, ops[at:]...)...)
+	if rapid.IntRange(0, 2).Draw(t, "withFlood") == 0 {
+		at := rapid.IntRange(0, len(ops)).Draw(t, "floodAt")
+		k := rapid.SampledFrom([]int{1100, 5000, 9000, 17000, 33000}).Draw(t, "floodK")
+		ops = append(ops[:at:at], append([]c12Op{{Op: "flood", K: k}}, ops[at:]...)...)
+	}
 	return c12Case{Kind: "ops", Ops: ops}
 }
 
@@ -164,6 +176,13 @@ func genC12(t *rapid.T) c12Case {
 		if rapid.IntRange(0, 5).Draw(t, "truncated") == 3 {
 			c.Truncate = rapid.IntRange(1, len(s.Render(c.Recs))+1).Draw(t, "truncate")
 		}
+		c.NoRelease = rapid.SliceOfN(rapid.Bool(), 1, 4).Draw(t, "noRelease")
+		return c
+	case k >= 460 && k < 540: // ~3 %: several top-level JSON values
+		c := c12Case{Kind: "jsonvalues"}
+		c.Values = rapid.SliceOfN(rapid.SampledFrom([]string{`{"k":"y","v":1}`, `{"k":"n"}`, `[1,2]`, `"s"`, `{"k":"y","a":[{"k":"n"}]}`, `{"k":"n","a":[{"k":"y"}]}`, `7`, `{}`}), 2, 5).Draw(t, "values")
+		c.Sep = rapid.SampledFrom([]string{"", " ", "\n"}).Draw(t, "valueSep")
+		c.XPath = rapid.SampledFrom([]string{".", ".[k='y']", ".[k!='y']", "/*", "/a/*", "/a/*[k='y']", ".[a/k='y']"}).Draw(t, "valuesXPath")
 		c.NoRelease = rapid.SliceOfN(rapid.Bool(), 1, 4).Draw(t, "noRelease")
 		return c
 	default:
@@ -465,6 +484,45 @@ func c12RunOps(c c12Case) obs.Result {
 			if k >= 1<<16 {
 				classes["churn>=65536"] = true
 			}
+		case "flood":
+			// a tree of k nodes released at once (k nodes sit in the pool together), then k+500 acquisitions: free lists
+			// and pool front-ends with a capacity must not hand a node out twice
+			k := op.K
+			if k < 1 {
+				k = 1
+			}
+			if k > 40000 {
+				k = 40000
+			}
+			root := idr.CreateNode(idr.ElementNode, "flood")
+			for j := 0; j < k-1; j++ {
+				idr.AddChild(root, idr.CreateNode(idr.TextNode, "f"))
+			}
+			idr.RemoveAndReleaseTree(root)
+			held := make(map[*idr.Node]bool, k+500)
+			var order []*idr.Node
+			for j := 0; j < k+500; j++ {
+				n := idr.CreateNode(idr.ElementNode, "flood2")
+				if held[n] {
+					return fail(i, op, fmt.Errorf("flood: acquisition %d of %d after releasing a tree of %d nodes returned a node that an earlier acquisition of this run still holds", j, k+500, k))
+				}
+				if m, isLive := s.live[n]; isLive {
+					return fail(i, op, fmt.Errorf("flood: acquisition %d returned a node that is still live in the model (index %d)", j, s.indexOf(m)))
+				}
+				if n.Parent != nil || n.FirstChild != nil || n.LastChild != nil || n.PrevSibling != nil || n.NextSibling != nil || n.FormatSpecific != nil {
+					return fail(i, op, fmt.Errorf("flood: acquisition %d returned a node that is not blank", j))
+				}
+				if s.ids[n.ID] {
+					return fail(i, op, fmt.Errorf("flood: acquisition %d returned a node with ID %d, which this history has seen before", j, n.ID))
+				}
+				s.ids[n.ID] = true
+				held[n] = true
+				order = append(order, n)
+			}
+			for _, n := range order {
+				idr.RemoveAndReleaseTree(n)
+			}
+			classes["flood"] = true
 		default:
 			return obs.Result{Excluded: "unknown operation " + op.Op}
 		}
@@ -867,6 +925,35 @@ func c12RunConc(c c12Case) obs.Result {
 
 // ---------------------------------------------------------------------------------------------
 
+// c12RunJSONValues: whatever the JSON stream reader does with data after the first top-level value, every node it
+// hands out must belong to a sound tree.
+func c12RunJSONValues(c c12Case) obs.Result {
+	in := strings.Join(c.Values, c.Sep)
+	r, err := idr.NewJSONStreamReader(strings.NewReader(in), c.XPath)
+	if err != nil {
+		return obs.Result{Excluded: "xpath rejected: " + err.Error()}
+	}
+	delivered := 0
+	for i := 0; i < 4*len(c.Values)+8; i++ {
+		n, err := r.Read()
+		if err != nil {
+			break
+		}
+		if n == nil {
+			return obs.Violationf("json reader over %q with xpath %q: Read %d returned (nil, nil)", in, c.XPath, i)
+		}
+		if err := model.AuditTree(n); err != nil {
+			return obs.Violationf("json reader over %q with xpath %q: the tree of the node delivered by Read %d is unsound: %v", in, c.XPath, i, err)
+		}
+		delivered++
+		// (a node that is not handed back is released by the reader itself at its next Read)
+		if !(len(c.NoRelease) > 0 && c.NoRelease[i%len(c.NoRelease)]) {
+			r.Release(n)
+		}
+	}
+	return obs.OK(delivered >= 1, "kind=jsonvalues")
+}
+
 func checkC12(c c12Case) obs.Result {
 	switch c.Kind {
 	case "ops":
@@ -875,6 +962,8 @@ func checkC12(c c12Case) obs.Result {
 		return c12RunReader(c)
 	case "conc":
 		return c12RunConc(c)
+	case "jsonvalues":
+		return c12RunJSONValues(c)
 	}
 	return obs.Result{Excluded: "unknown case kind " + c.Kind}
 }
